@@ -86,6 +86,7 @@ def check(ctx):
     check_axes(ctx)
     check_ranking(ctx)
     check_counter_capacity(ctx)
+    check_correlation_backfill(ctx)
 
 
 def _draw_ok(fi, expr, nid, depth=0):
@@ -515,3 +516,61 @@ def check_counter_capacity(ctx):
     if n == 0:
         raise AnalysisError('no vote counter with a chosen integer type '
                             'found in tally_votes')
+
+
+def check_correlation_backfill(ctx):
+    """levels at which no vote was held inherit the average correlation of
+    a neighbouring level; a level that *was* voted on keeps the value that
+    was computed for it, whatever that value is.  The inheritance is
+    therefore conditioned on `is None`, never on truthiness: 0.0 is a
+    legitimate mean correlation."""
+    db = ctx.db
+    fi = db.fn('type_assignment.election:run_type_assignment')
+    ctx.touch(fi)
+    cfg = cfg_of(fi)
+    rd = rd_of(fi)
+    rule = 'R-GUARD/correlation-backfill'
+    n = 0
+    for node in cfg.nodes:
+        if node.kind != 'stmt' or node.id not in rd.live or not isinstance(
+                node.ast, ast.Assign):
+            continue
+        tg = node.ast.targets[0]
+        if not (isinstance(tg, ast.Subscript) and isinstance(
+                tg.slice, ast.Constant)
+                and tg.slice.value == 'avg_correlation'):
+            continue
+        # only the inheritance stores: the value read is the same field of
+        # another record
+        reads = [x for x in ast.walk(node.ast.value)
+                 if isinstance(x, ast.Subscript) and isinstance(
+                     x.slice, ast.Constant)
+                 and x.slice.value == 'avg_correlation']
+        if not reads:
+            continue
+        n += 1
+        truthy = any(isinstance(x, (ast.BoolOp, ast.IfExp))
+                     for x in ast.walk(node.ast.value))
+        guarded = False
+        for g in cfg.nodes:
+            if g.kind == 'if' and g.id in rd.live:
+                t = g.ast.test
+                if isinstance(t, ast.Compare) and len(t.ops) == 1 \
+                        and isinstance(t.ops[0], ast.Is) and isinstance(
+                            t.comparators[0], ast.Constant) \
+                        and t.comparators[0].value is None \
+                        and 'avg_correlation' in unparse(t.left):
+                    for (tt, lab) in cfg.succ[g.id]:
+                        if lab == 'true' and (tt == node.id or
+                                              cfg.dominates(tt, node.id)):
+                            guarded = True
+        ok = guarded and not truthy
+        ctx.ob(rule, f'{fi.qual}:inherit#{n - 1}', fi.loc(node.ast), ok,
+               'inherited only where the value is None' if ok else
+               f'`{unparse(node.ast)[:70]}` replaces the average '
+               'correlation of a level on a truthiness test (or without '
+               'an `is None` test): a computed mean of exactly 0.0 is '
+               'overwritten by the neighbouring level\'s value')
+    if n == 0:
+        raise AnalysisError('run_type_assignment: the inheritance of '
+                            'avg_correlation was not found')
